@@ -211,6 +211,12 @@ def srcStep (st : StackSt) (op : List String) (env : List (Option Nat)) : StackS
     | ["bad_dealloc_block", b, sz] =>
       let (_, _, chk) := s.deallocateBlock cfg ⟨nat! b, nat! sz⟩
       (st, (match chk with | some k => badClass (.handler k) | none => "missed"), "", s.str)
+    -- C12: the source object is moved / move-assigned onto a fresh one / swapped with a fresh one: the owner of the
+    -- memory has exactly the state the source had; the object left behind is destroyed without any effect
+    | ["move"] => (st, "done", "", s.str)
+    | ["move_assign"] => (st, "done", "", s.str)
+    | ["swap"] => (st, "done", "", s.str)
+    | ["destroy"] => ({ st with src := none }, "done", "", "-")
     | _ => (st, "bad-op", "", "-")
 
 def staticStep (st : StackSt) (op : List String) : StackSt × String × String × String :=
